@@ -66,9 +66,9 @@ CLAIMED = {
     technique="TLA+ model checking (TLC) of the reader state machine + replay of every bounded behaviour on real files"),
  "C16": dict(
     category="model_checking",
-    text="Values.tla defines the one total order (Cmp), equality (Eq) and hash class (Canon) C16 demands and the code's as-built comparison (CmpB/EqB/HashKeyB). TLC checks trichotomy, transitivity, equality = order, equal => equal hash and numbers-by-value on all 74 088 triples of a 42-value boundary universe (NULL, integers at 0 and the 64-bit extremes, reals incl. -0.0, infinities, NaN, an INT and a REAL of equal value, texts, nested arrays, instants, intervals). Every ordered pair is executed on the real Value (==, cmp, partial_cmp, <, >, Hash with two hashers) and through every consumer the property names (WHERE, DISTINCT, GROUP BY grouping and order, MIN/MAX, array_unique) via Engine.tla's PairMenu; random wider pairs are validated as a trace by Trace_Values.tla.",
+    text="Values.tla defines the one total order (Cmp), equality (Eq) and hash class (Canon) C16 demands and the code's as-built comparison (CmpB/EqB/HashKeyB). TLC checks trichotomy, transitivity, equality = order, equal => equal hash and numbers-by-value on all 79 507 triples of a 43-value boundary universe (NULL, integers at 0 and the 64-bit extremes, reals incl. -0.0, infinities, NaN, an INT and a REAL of equal value, texts, nested arrays, instants, intervals). Every ordered pair is executed on the real Value (==, cmp, partial_cmp, <, >, Hash with two hashers) and through every consumer the property names (WHERE, DISTINCT, GROUP BY grouping and order, MIN/MAX, array_unique) via Engine.tla's PairMenu; random wider pairs are validated as a trace by Trace_Values.tla.",
     design_ref="DESIGN.md section 6 (C16)",
-    note="Bounded universe of 42 values; join lookup is covered through the Eq/Hash contract (HashMap) rather than through a join on every type. Trusted: TLC, std HashMap/BTreeMap honouring Eq/Hash/Ord.",
+    note="Bounded universe of 43 values; join lookup is covered through the Eq/Hash contract (HashMap) rather than through a join on every type. Trusted: TLC, std HashMap/BTreeMap honouring Eq/Hash/Ord.",
     technique="TLA+ model checking (TLC) of order/equality/hash laws over all triples + replay of every pair on the real trait impls and consumers + trace validation of random pairs"),
  "C17": dict(
     category="model_checking",
@@ -125,6 +125,25 @@ CLAIMED = {
     note="The code's hash containers are only used for lookups; the model therefore has no order choice to range over, which is exactly what the determinism check establishes for the model and the replays for the code. now() excluded.",
     technique="TLC determinism check of Engine.tla + replay against the unique output + fresh-process CLI runs validated as a trace"),
 }
+
+# what later rounds added to each check (appended to the text above)
+ADDED = {
+ "C02": " Round 3: documents whose object keys look like array indexes (an index step addresses arrays only) and the same documents written with insignificant whitespace around / inside them.",
+ "C03": " Round 3: Expr.tla now gives exact meaning (under TZ=UTC) to timestamps and intervals - timestamp +- interval, timestamp - timestamp, interval +- interval, every other operator mix an error, casts between TEXT / TIMESTAMP / INTERVAL / INT / REAL, comparison of a TIMESTAMP with a text literal, EXTRACT(EPOCH ...), date_trunc, make_timestamp with calendar validation - and to pow, sqrt and regex_matches (literal patterns with anchors); CalMenu replays them per row.",
+ "C04": " Round 3: aggregates over TIMESTAMP and INTERVAL values (MIN / MAX by instant, SUM / AVG of intervals, GROUP BY a timestamp or a truncated timestamp, PERCENTILE, ARRAY_AGG, DISTINCT on them).",
+ "C06": " Round 3: a table whose pattern is anchored at both ends and noise lines longer than the reader's buffers (8 KiB, 64 KiB, 100 000 bytes) whose tail reads like a row.",
+ "C08": " Round 3: two NaNs of different bit patterns (NaN and -NaN) are one value for DISTINCT, also when the REAL is not the last member of the tuple.",
+ "C09": " Round 3: interval texts, sums and differences beyond the representable range, timestamps at the ends of the calendar, date parts beyond their fields, fractions of a second whose scaling leaves 32 bits, pow / sqrt / date_trunc / EXTRACT(EPOCH) / regex_matches on extremes and wrong types; and Cli.tla: every kind of invocation of the real process ends with the modelled output and exit status (no panic, no signal).",
+ "C10": " Round 3: contents now include a byte that is not UTF-8 anywhere (delivered as U+FFFD by lossy decoding of the whole line), so the reader's position bookkeeping cannot depend on decoded lengths.",
+ "C12": " Round 3: Cli.tla models the command-line driver (files in command-line order, FROM t::'file' and --stdin replacing them, a file that cannot be opened: one message and no record, the `processed n lines` statistic); TLC checks FilesInOrder / MessageOrRecords on it and every behaviour is one run of the real binary compared line by line.",
+ "C14": " Round 3: pattern strings nested / repeated far beyond the regular-expression compiler's limits (20 000 groups), classified in a child process so that a stack overflow is an observation (crash), and Cli.tla's messages: a statement or definition file that does not parse gives one located message, exit status 1 only for the definition file.",
+ "C16": " Round 3: the universe holds two NaNs of different bit patterns (43 values, 79 507 triples); PairMenu also deduplicates two-column tuples.",
+ "C17": " Round 3: Cli.tla replays the records as the real process prints them on stdout in every --format (CSV header once and only with a record, one record per line, statistics line last).",
+ "C18": " Round 3: a joined file of 120 lines with three keys interleaved irregularly (partners must come in joined-file order whatever index the loader builds) and, in fresh processes, tables whose names differ only in letter case queried under a third spelling.",
+ "C19": " Round 3: Trace_Sigint.tla validates runs of the real process interrupted by a real SIGINT (main.rs ctrl-c handler): rows are a prefix, lines processed = rows printed, an interrupted aggregate shows the table of exactly the lines consumed, status 0 and no error.",
+}
+for _pid, _t in ADDED.items():
+    CLAIMED[_pid]["text"] += _t
 
 TITLES = {}
 for l in open(os.path.join(ROOT, "properties.jsonl")):
